@@ -341,4 +341,14 @@ def main():
 
 
 if __name__ == "__main__":
-    sys.exit(main())
+    try:
+        rc = main()
+    except SystemExit:
+        raise
+    except BaseException:
+        import traceback
+
+        traceback.print_exc()
+        print("HARNESS-ERROR driver exception (see traceback on stderr)")
+        rc = 2
+    sys.exit(rc)
